@@ -24,9 +24,10 @@ EXN = vlib.exn_table()
 
 
 # ------------------------------------------------------------------ token layouts
-def obj(label, cls, key=None, pub_attrs=True, ec_wrapped=True, ktype=None, attr_pad=0):
-    """key: ksrxml key dict (has 'priv') or None; attr_pad: leading zero octets in the RSA integer attributes the token reports"""
-    return {"label": label, "cls": cls, "key": key, "pub_attrs": pub_attrs, "ec_wrapped": ec_wrapped, "ktype": ktype, "attr_pad": attr_pad}
+def obj(label, cls, key=None, pub_attrs=True, ec_wrapped=True, ktype=None, attr_pad=0, extra=None):
+    """key: ksrxml key dict (has 'priv', which may be None for a public object given by its raw attributes in extra) or None;
+    attr_pad: leading zero octets in the public exponent the token reports; extra: {CKA_*: value} overriding what the emulator derives"""
+    return {"label": label, "cls": cls, "key": key, "pub_attrs": pub_attrs, "ec_wrapped": ec_wrapped, "ktype": ktype, "attr_pad": attr_pad, "extra": extra}
 
 
 def pair(label, key, **kw):
@@ -42,7 +43,7 @@ def build_token(modules) -> emu.Token:
             for o in s["objs"]:
                 kt = o["ktype"]
                 objs.append(emu.Obj(CLS[o["cls"]], o["label"], o["key"]["priv"] if o["key"] else None, key_type=kt,
-                                    pub_attrs=o["pub_attrs"], ec_wrapped=o["ec_wrapped"], attr_pad=o.get("attr_pad", 0)))
+                                    pub_attrs=o["pub_attrs"], ec_wrapped=o["ec_wrapped"], attr_pad=o.get("attr_pad", 0), extra=o.get("extra")))
             sl.append(emu.Slot(s["id"], s.get("login_ok", True), objs))
         mods[f"emu:{mi}"] = sl
     return emu.Token(mods)
